@@ -14,7 +14,8 @@ CONSTANTS MaxLines,     \* number of templates the sender may append
           LimitN,       \* payload limit (a natural number)
           MaxFds,       \* descriptors that may arrive in total
           Guided,       \* TRUE: the sender follows the successor relation below
-          TSet          \* indices of the templates the sender may use
+          TSet,         \* indices of the templates the sender may use
+          DeferPop      \* TRUE: the caller does not pop after every read; completed requests queue up
 
 VARIABLES c,        \* the connection record
           stream,   \* bytes sent since the last restart (epoch)
@@ -52,11 +53,13 @@ Send(t) == /\ nsent < MaxLines
            /\ nsent' = nsent + 1 /\ last' = t
            /\ UNCHANGED <<c, pos, outs, errv, nfds, epoch, arrived, lastRead>>
 
-\* after every call the harness pops all requests and drains all output
-Drained(cc) == [cc EXCEPT !.parsed = <<>>, !.respQ = <<>>, !.respBuf = <<>>]
+\* after every call the harness pops all requests and drains all output; a caller that defers
+\* popping (DeferPop) leaves completed requests queued in the connection (at most 3 here)
+Drained(cc) == [cc EXCEPT !.parsed = IF DeferPop THEN @ ELSE <<>>, !.respQ = <<>>, !.respBuf = <<>>]
 
 Read(k, fds) ==
     /\ errv = NoErr
+    /\ Len(c.parsed) < 3
     /\ k \in 1..(Len(stream) - pos)
     /\ k <= BUF - Len(c.buf)
     /\ LET r == TryRead(c, Slice(stream, pos + 1, pos + k), fds) IN
@@ -86,9 +89,15 @@ ReadEof == /\ errv = NoErr /\ nfds < MaxFds
 Restart == /\ errv # NoErr
            /\ stream' = From(stream, pos + 1) /\ pos' = 0 /\ outs' = <<>> /\ errv' = NoErr
            /\ arrived' = <<>> /\ lastRead' = NoRead /\ epoch' = IF epoch < 2 THEN epoch + 1 ELSE epoch
-           /\ UNCHANGED <<c, nsent, last, nfds>>
+           /\ c' = PopAll(c)
+           /\ UNCHANGED <<nsent, last, nfds>>
 
-Next == (\E t \in TSet : Send(t)) \/ ReadData \/ ReadEmpty \/ ReadEof \/ Restart
+\* pop_parsed_request by a caller that defers popping
+PopOne == /\ DeferPop /\ c.parsed # <<>>
+          /\ c' = PopParsed(c)
+          /\ UNCHANGED <<stream, pos, outs, errv, nsent, last, nfds, epoch, arrived, lastRead>>
+
+Next == (\E t \in TSet : Send(t)) \/ ReadData \/ ReadEmpty \/ ReadEof \/ Restart \/ PopOne
 
 Spec == Init /\ [][Next]_vars
 
@@ -126,6 +135,15 @@ RECURSIVE FilesOf(_)
 FilesOf(os) == IF os = <<>> THEN <<>> ELSE Head(os).r.files \o FilesOf(Tail(os))
 FilesOrdered == errv = NoErr => FilesOf(outs) \o c.files = arrived
 
+\* C01 / C12 with a caller that does not pop after every read: the queue of completed requests is
+\* exactly the most recent deliveries, in delivery order, each with its own descriptors -- popping
+\* hands out every request exactly once, in stream order
+ParsedQueueOK ==
+    LET rq == SelectSeq(outs, LAMBDA o : o.k = "req")
+        n == Len(c.parsed)
+    IN (DeferPop /\ errv = NoErr) => /\ n <= Len(rq)
+                                     /\ \A i \in 1..n : c.parsed[i] = rq[Len(rq) - n + i].r
+
 \* C12: the first request completed in or after the read that brought a descriptor gets it
 AttachRule ==
     LET reqs == SelectSeq(lastRead.outs, LAMBDA o : o.k = "req") IN
@@ -143,7 +161,7 @@ AttachRule ==
 WitnessNames == <<"body_delivered", "continue", "size_limit", "header_too_long", "reqline_too_long",
                   "bad_method", "bad_uri", "bad_version", "bad_format", "bad_value", "pipelined",
                   "delivery_after_error", "cr_lf_split", "partial_body", "carry_after_output", "files_delivered",
-                  "ignored_header", "custom_header">>
+                  "ignored_header", "custom_header", "two_queued_with_files">>
 ASSUME \A i \in 1..Len(WitnessNames) : TLCSet(i, FALSE)
 Witness(i, cond) == IF cond /\ ~TLCGet(i) THEN TLCSet(i, TRUE) /\ PrintT(<<"WITNESS", WitnessNames[i]>>) ELSE TRUE
 Reqs == SelectSeq(outs, LAMBDA o : o.k = "req")
@@ -166,6 +184,7 @@ Witnesses ==
     /\ Witness(16, MaxFds = 0 \/ \E i \in 1..Len(outs) : outs[i].k = "req" /\ outs[i].r.files # <<>>)
     /\ Witness(17, \E i \in 1..Len(outs) : outs[i].k = "req" /\ outs[i].r.h.chunked)
     /\ Witness(18, \E i \in 1..Len(outs) : outs[i].k = "req" /\ outs[i].r.h.custom # <<>>)
+    /\ Witness(19, Len(c.parsed) >= 2 /\ c.parsed[2].files # <<>>)
 
 \* EAGAIN / EINTR change nothing (C01)
 EmptyReadInert == [][ReadEmpty => UNCHANGED c]_vars
